@@ -149,11 +149,16 @@ Mk(ep, enc, ds, o, bp, ss) ==
   [ep |-> ep, enc |-> enc, dataset |-> ds, key |-> o.key, ttl |-> o.ttl, env |-> o.env, envAt |-> o.envAt,
    body |-> bp.body, parse |-> bp.parse, shape |-> ss.shape, split |-> ss.split]
 
+NoBodyParse == [body |-> "none", parse |-> "none"]
+
 \* a request with an undecodable path is turned away before anything else of it
-\* is looked at, so that fault is not combined with the others
+\* is looked at, so that fault is not combined with the others; requests whose
+\* body is corrupt or malformed are enumerated with up to two events only
 Requests ==
-  UNION {{Mk(ep, enc, "none", o, bp, ss) : enc \in Encodings(ep), o \in EnvOptions, bp \in BodyParse(ep), ss \in ShapeSplits(ep)}
-         \cup {Mk(ep, enc, ds, Healthy, [body |-> "none", parse |-> "none"], ss)
+  UNION {UNION {{Mk(ep, enc, "none", o, bp, ss) : enc \in Encodings(ep), o \in EnvOptions,
+                                                  ss \in {x \in ShapeSplits(ep) : bp = NoBodyParse \/ Len(x.shape) <= 2}}
+                : bp \in BodyParse(ep)}
+         \cup {Mk(ep, enc, ds, Healthy, NoBodyParse, ss)
                 : enc \in Encodings(ep), ds \in DatasetFaults(ep) \ {"none"}, ss \in ShapeSplits(ep)}
          : ep \in Endpoints}
 
